@@ -555,6 +555,56 @@ theorem levelOrder_perm (rp : RootParams) (q : List QItem) (hw : QWf rp q) :
     have ih' := ih hq
     simpa [subtree, hl] using ih'
 
+/-! ### breadth-first and depth-first record the same failing directories -/
+
+/-- what the depth-first walker records below one queued directory -/
+def subFaults (rp : RootParams) (it : QItem) : List Str :=
+  if it.listable then faultsL rp it.path it.canon (itemDepth rp it) it.kids else [it.path]
+
+theorem faults_split (rp : RootParams) (dp dc : Str) (hc : 1 < dc.length) (hb : rp.base ≤ calcDepth dc) :
+    ∀ ns : List Node, goodL ns →
+      faultsL rp dp dc (calcDepth dc - rp.base + 1) ns =
+        (kidsItems rp dp dc (calcDepth dc - rp.base + 1) ns).flatMap (subFaults rp)
+  | [], _ => by simp [faultsL, kidsItems]
+  | .leaf le z :: ns, hg => by
+    simp only [goodL] at hg
+    simp only [faultsL, faultsN, kidsItems, List.nil_append]
+    exact faults_split rp dp dc hc hb ns hg.2
+  | .dir de l kids :: ns, hg => by
+    simp only [goodL, goodN] at hg
+    have ih := faults_split rp dp dc hc hb ns hg.2
+    have hd := depth_child dc de.name rp.base hg.1.1 hc hb
+    simp only [faultsL, faultsN, kidsItems, List.flatMap_append, ih]
+    congr 1
+    by_cases hm : (rp.maxDepth == 0 || decide (calcDepth dc - rp.base + 1 < rp.maxDepth)) = true
+    · simp only [hm, if_true, List.flatMap_cons, List.flatMap_nil, List.append_nil, subFaults, itemDepth, hd]
+    · simp only [hm, Bool.false_eq_true, if_false, List.flatMap_nil]
+
+/-- the failing directories recorded in level order are those recorded in pre-order (as a multiset) -/
+theorem levelFaults_perm (rp : RootParams) (q : List QItem) (hw : QWf rp q) :
+    (levelFaults rp q).Perm (q.flatMap (subFaults rp)) := by
+  fun_induction levelFaults rp q with
+  | case1 => simp
+  | case2 it q hl ih =>
+    have hit : ItemWf rp it := hw it (by simp)
+    have hq : QWf rp q := fun x hx => hw x (by simp [hx])
+    have hnew : QWf rp (q ++ kidsItems rp it.path it.canon (itemDepth rp it) it.kids) := by
+      intro x hx
+      rcases List.mem_append.mp hx with h | h
+      · exact hq x h
+      · exact (items_wf rp it.path it.canon _ hit.2.1 hit.2.2 it.kids hit.1 x h).1
+    have ih' := ih hnew
+    have hs := faults_split rp it.path it.canon hit.2.1 hit.2.2 it.kids hit.1
+    simp only [List.flatMap_cons, List.flatMap_append, subFaults, hl, if_true] at ih' ⊢
+    simp only [itemDepth] at ih' hs ⊢
+    rw [hs]
+    exact ih'.trans List.perm_append_comm
+  | case3 it q hl ih =>
+    have hq : QWf rp q := fun x hx => hw x (by simp [hx])
+    have ih' := ih hq
+    simp only [List.flatMap_cons, subFaults, hl, Bool.false_eq_true, if_false, List.singleton_append]
+    exact List.Perm.cons _ ih'
+
 /-! ### bfs: no entry precedes an entry of smaller depth -/
 
 /-- queue discipline: depths never decrease along the queue and any two differ by at most one -/
